@@ -16,7 +16,7 @@
         never dropped (and nobody else gets its chunks); the arithmetic
         renew period + total backoff < TTL from the Rust constants. *)
 From CS Require Import Base.Prelude Base.CasProto Proofs.CasProtoProofs Model.Lease.
-From CSGen Require Import Consts.
+From CSGen Require Import Consts Funs.
 Open Scope Z_scope.
 
 (* ------------------------------------------------------------------ *)
@@ -144,6 +144,57 @@ Proof.
   unfold keys_nodup. intros H. rewrite keys_aset. unfold amem.
   destruct (aget N.eqb k t) eqn:E; [exact H|].
   apply nodup_snoc; [exact H|apply aget_none_key; exact E].
+Qed.
+
+(* ------------------------------------------------------------------ *)
+(* 1b. the comparisons written in the code are the named predicates     *)
+(*     (generated/Funs.v is re-translated from the Rust sources on every *)
+(*     run: a changed operator breaks these lemmas)                      *)
+(* ------------------------------------------------------------------ *)
+Lemma status_code_active l : Z.eqb (status_code (l_status l)) active_code = is_active l.
+Proof. unfold is_active, status_code, active_code. destruct (l_status l); reflexivity. Qed.
+
+Lemma acq_keep_spec b now l : acq_keep b now l = negb (expired now l).
+Proof.
+  unfold acq_keep, expired, lease_s3_acquire_keep, lease_local_acquire_keep.
+  destruct b; rewrite status_code_active; reflexivity.
+Qed.
+
+Lemma acq_live_spec b now l : acq_live b now l = live now l.
+Proof.
+  unfold acq_live, live, lease_s3_acquire_live, lease_local_acquire_live.
+  destruct b; rewrite status_code_active, Z.gtb_ltb; reflexivity.
+Qed.
+
+Lemma renew_refuse_spec b now l : renew_refuse b now l = negb (is_active l).
+Proof.
+  unfold renew_refuse, lease_s3_renew_refuse, lease_local_renew_refuse.
+  destruct b; rewrite status_code_active; reflexivity.
+Qed.
+
+Lemma scav_keep_spec b now l : scav_keep b now l = live now l.
+Proof.
+  unfold scav_keep, live, lease_s3_scavenge_cond, lease_s3_scavenge_then,
+    lease_local_scavenge_cond, lease_local_scavenge_then.
+  destruct b; rewrite status_code_active, Z.gtb_ltb; destruct (is_active l); reflexivity.
+Qed.
+
+(* the bodies the backends run are the bodies the theorems talk about *)
+Theorem body_code_eq b cfg now op t : lease_body_code b cfg now op t = lease_body b cfg now op t.
+Proof.
+  destruct op as [id h cs lv|id|id|id|]; simpl; try reflexivity.
+  - assert (E1 : filter (fun x : N * lease => acq_keep b now (snd x)) t = drop_expired now t).
+    { unfold drop_expired. apply filter_ext. intros x. apply acq_keep_spec. }
+    rewrite E1.
+    assert (E2 : flat_map (fun x : N * lease => if acq_live b now (snd x) then l_chunks (snd x) else [])
+                          (drop_expired now t) = leased_chunks now (drop_expired now t)).
+    { unfold leased_chunks. apply flat_map_ext. intros x. rewrite acq_live_spec. reflexivity. }
+    rewrite E2. reflexivity.
+  - destruct (aget N.eqb id t) as [l|]; [|reflexivity].
+    rewrite renew_refuse_spec. destruct (is_active l); reflexivity.
+  - assert (E : filter (fun x : N * lease => scav_keep b now (snd x)) t = keep_live now t).
+    { unfold keep_live. apply filter_ext. intros x. apply scav_keep_spec. }
+    rewrite E. reflexivity.
 Qed.
 
 (* ------------------------------------------------------------------ *)
@@ -322,7 +373,7 @@ Proof. destruct v; simpl; [tauto|intros _; apply LInv_nil]. Qed.
 Theorem lease_decide_preserves cfg now op prev v' o :
   opt_inv prev -> lease_decide cfg now op prev = Commit v' o -> LInv v'.
 Proof.
-  intros Hp Hd. unfold lease_decide in Hd.
+  intros Hp Hd. unfold lease_decide in Hd. rewrite body_code_eq in Hd.
   destruct (lease_body ObjectStore cfg now op (tbl prev)) as [t1 o1|o1] eqn:Eb; [|discriminate].
   inversion Hd; subst. apply (body_preserves _ _ _ _ _ _ _ (tbl_inv _ Hp) Eb).
 Qed.
@@ -353,7 +404,7 @@ Qed.
 (* ------------------------------------------------------------------ *)
 Lemma local_apply_preserves cfg now op t : LInv t -> LInv (fst (local_apply cfg now op t)).
 Proof.
-  intros H. unfold local_apply.
+  intros H. unfold local_apply. rewrite body_code_eq.
   destruct (lease_body InMemory cfg now op t) as [t1 o1|o1] eqn:Eb; simpl; [|exact H].
   apply (body_preserves _ _ _ _ _ _ _ H Eb).
 Qed.
@@ -509,7 +560,7 @@ Theorem reclaimed_never_renewed cfg id : forall (log : list lcommit) v,
 Proof.
   induction log as [|k r IH]; intros v Hc Hg Hops; [constructor|].
   destruct Hc as [_ [Hd Hc]]. inversion Hops as [|? ? Hop Hr]; subst.
-  unfold lease_decide in Hd.
+  unfold lease_decide in Hd. rewrite body_code_eq in Hd.
   destruct (lease_body ObjectStore cfg (k_now k) (k_op k) (tbl v)) as [t1 o1|o1] eqn:Eb; [|discriminate].
   inversion Hd; subst t1 o1.
   assert (aget N.eqb id (k_val k) = None) as Hn by (apply (body_absent_stays _ _ _ _ _ _ _ _ Hg Hop Eb)).
@@ -629,7 +680,7 @@ Proof.
   destruct Hc as [_ [Hd Hc]].
   change (log_ops (k :: r)) with ((k_now k, k_op k) :: log_ops r) in Hit.
   apply in_time_cons in Hit. destruct Hit as [Hlt [Hop Hit]].
-  unfold lease_decide in Hd. simpl tbl in Hd.
+  unfold lease_decide in Hd. rewrite body_code_eq in Hd. simpl tbl in Hd.
   destruct (lease_body ObjectStore cfg (k_now k) (k_op k) v) as [t1 o1|o1] eqn:Eb; [|discriminate].
   inversion Hd; subst t1 o1.
   pose proof (body_holds _ _ _ _ _ _ _ _ _ _ _ Hh Hlt Hop Eb) as Hh'.
@@ -658,7 +709,7 @@ Lemma acquire_commit_holds cfg now id h cs lv prev v' o :
   lease_decide cfg now (OAcquire id h cs lv) prev = Commit v' o ->
   holds id h cs (now + acq_ttl cfg) v'.
 Proof.
-  unfold lease_decide. simpl.
+  unfold lease_decide. rewrite body_code_eq. simpl.
   destruct (conflicts now (drop_expired now (tbl prev)) cs) as [|c r]; [|discriminate].
   intros H. inversion H; subst.
   eexists. split; [apply aget_aset_same|]. simpl. repeat split; try reflexivity; try lia.
@@ -722,7 +773,7 @@ Proof.
     + change (timed (ls_now s) (HOp op :: r)) with ((ls_now s, op) :: timed (ls_now s) r) in Hit.
       apply in_time_cons in Hit. destruct Hit as [Hlt [Hop Hit]].
       pose proof (local_step_preserves cfg s (HOp op) HI) as HI'.
-      simpl local_step in *. unfold local_apply in *.
+      simpl local_step in *. unfold local_apply in *. rewrite body_code_eq in *.
       destruct (lease_body InMemory cfg (ls_now s) op (ls_tab s)) as [t1 o1|o1] eqn:Eb; simpl in *.
       * apply (IH _ (next_deadline cfg id e (ls_now s) op)); [exact HI'| |exact Hit].
         simpl. apply (body_holds _ _ _ _ _ _ _ _ _ _ _ Hh Hlt Hop Eb).
